@@ -1,6 +1,523 @@
-(* C13 - placeholder: theorems are added with Proofs/TagProofs.v *)
-From Xeh Require Import Model.Prelude Model.Bits Model.Cell.
+(* C13 - Tags never change what a value does.
 
-Theorem C13_value_with_tags : forall c t, value (with_tags c t) = value c.
-Proof. intros c t. unfold with_tags. destruct c; reflexivity. Qed.
-Check C13_value_with_tags : forall c t, value (with_tags c t) = value c.
+   Vocabulary (Proofs/CellProofs.v, TagProofs.v, TagSim.v, TagWords.v, TagFresh.v):
+     strip c            c with every tag wrapper removed, at every depth
+     tagwf c            no tag wrapper directly wraps a tag wrapper (with_tags never builds one)
+     strip_state s      s with every cell of the data stack, heap, loop collections, locals and
+                        reverse log stripped;  tagwf_state s: the cells s holds are tagwf
+     res_strip r        the result r with its final state and its error payload stripped
+     tag_reader w       w is one of the words that READ tags: tags get-tag %fmt-base %fmt-prefix
+                        %fmt-tags %fmt-upcase print println .s concat join str>number close-bitstr
+     tag_maker w        w builds a tag wrapper: with-tags insert-tag remove-tag %tagmap-end %fmt-*
+                        open-bitstr float int uint (and the uN/iN/fN reading words)
+     tg T c             every tag wrapper inside c (tag maps included) belongs to the set T *)
+From Xeh Require Import Model.Prelude Model.Bits Model.Codec Model.Cell Model.Lexer Model.Fmt
+                        Model.Vm Model.Words Proofs.BitsProofs Proofs.CellProofs Proofs.CollProofs
+                        Proofs.TagProofs Proofs.TagSim Proofs.TagWords Proofs.TagFresh Proofs.TagClose.
+Local Notation length := List.length.
+
+(* ================================================================== *)
+(* strip; tags never influence equality, order or the typed accessors  *)
+(* ================================================================== *)
+Theorem C13_strip_idem :
+  forall c, strip (strip c) = strip c.
+Proof. exact (@strip_idem). Qed.
+Check C13_strip_idem :
+  forall c, strip (strip c) = strip c.
+
+(* equal? and the order see stripped values only *)
+Theorem C13_eqb_strip :
+  forall a b, tagwf a -> tagwf b -> cell_eqb a b = cell_eqb (strip a) (strip b).
+Proof. exact (@eqb_strip_both). Qed.
+Check C13_eqb_strip :
+  forall a b, tagwf a -> tagwf b -> cell_eqb a b = cell_eqb (strip a) (strip b).
+
+Theorem C13_cmp_strip :
+  forall a b, tagwf a -> tagwf b -> cell_cmp a b = cell_cmp (strip a) (strip b).
+Proof. exact (@cmp_strip_both). Qed.
+Check C13_cmp_strip :
+  forall a b, tagwf a -> tagwf b -> cell_cmp a b = cell_cmp (strip a) (strip b).
+
+(* with-tags attaches a map and leaves the value alone *)
+Theorem C13_value_with_tags :
+  forall c t, value (with_tags c t) = value c.
+Proof. exact (@value_with_tags). Qed.
+Check C13_value_with_tags :
+  forall c t, value (with_tags c t) = value c.
+
+Theorem C13_tags_of_with_tags :
+  forall c t, tags_of (with_tags c t) = Some t.
+Proof. exact (@tags_of_with_tags). Qed.
+Check C13_tags_of_with_tags :
+  forall c t, tags_of (with_tags c t) = Some t.
+
+Theorem C13_strip_with_tags :
+  forall c t, strip (with_tags c t) = strip c.
+Proof. exact (@strip_with_tags). Qed.
+Check C13_strip_with_tags :
+  forall c t, strip (with_tags c t) = strip c.
+
+Theorem C13_eqb_with_tags :
+  forall a b t, tagwf a -> tagwf b -> cell_eqb (with_tags a t) b = cell_eqb a b.
+Proof. exact (@eqb_with_tags). Qed.
+Check C13_eqb_with_tags :
+  forall a b t, tagwf a -> tagwf b -> cell_eqb (with_tags a t) b = cell_eqb a b.
+
+Theorem C13_cmp_with_tags :
+  forall a b t, tagwf a -> tagwf b -> cell_cmp (with_tags a t) b = cell_cmp a b.
+Proof. exact (@cmp_with_tags). Qed.
+Check C13_cmp_with_tags :
+  forall a b t, tagwf a -> tagwf b -> cell_cmp (with_tags a t) b = cell_cmp a b.
+
+(* every typed accessor looks through the wrapper (exactly, or up to the reported payload) *)
+Theorem C13_m_xint_with_tags :
+  forall c t, m_xint (with_tags c t) = m_xint c.
+Proof. exact (@m_xint_with_tags). Qed.
+Check C13_m_xint_with_tags :
+  forall c t, m_xint (with_tags c t) = m_xint c.
+
+Theorem C13_m_real_with_tags :
+  forall c t, m_real (with_tags c t) = m_real c.
+Proof. exact (@m_real_with_tags). Qed.
+Check C13_m_real_with_tags :
+  forall c t, m_real (with_tags c t) = m_real c.
+
+Theorem C13_m_vec_with_tags :
+  forall c t, m_vec (with_tags c t) = m_vec c.
+Proof. exact (@m_vec_with_tags). Qed.
+Check C13_m_vec_with_tags :
+  forall c t, m_vec (with_tags c t) = m_vec c.
+
+Theorem C13_m_map_with_tags :
+  forall c t, m_map (with_tags c t) = m_map c.
+Proof. exact (@m_map_with_tags). Qed.
+Check C13_m_map_with_tags :
+  forall c t, m_map (with_tags c t) = m_map c.
+
+Theorem C13_m_str_with_tags :
+  forall c t, m_str (with_tags c t) = m_str c.
+Proof. exact (@m_str_with_tags). Qed.
+Check C13_m_str_with_tags :
+  forall c t, m_str (with_tags c t) = m_str c.
+
+Theorem C13_m_bits_with_tags :
+  forall c t, m_bits (with_tags c t) = m_bits c.
+Proof. exact (@m_bits_with_tags). Qed.
+Check C13_m_bits_with_tags :
+  forall c t, m_bits (with_tags c t) = m_bits c.
+
+Theorem C13_m_isize_with_tags :
+  forall c t, m_isize (with_tags c t) = m_isize c.
+Proof. exact (@m_isize_with_tags). Qed.
+Check C13_m_isize_with_tags :
+  forall c t, m_isize (with_tags c t) = m_isize c.
+
+Theorem C13_m_bool_with_tags :
+  forall c t s, payload_strip (m_bool (with_tags c t) s) = payload_strip (m_bool c s).
+Proof. exact (@m_bool_with_tags). Qed.
+Check C13_m_bool_with_tags :
+  forall c t s, payload_strip (m_bool (with_tags c t) s) = payload_strip (m_bool c s).
+
+Theorem C13_m_cond_with_tags :
+  forall c t s, payload_strip (m_cond (with_tags c t) s) = payload_strip (m_cond c s).
+Proof. exact (@m_cond_with_tags). Qed.
+Check C13_m_cond_with_tags :
+  forall c t s, payload_strip (m_cond (with_tags c t) s) = payload_strip (m_cond c s).
+
+Theorem C13_m_usize_with_tags :
+  forall c t s, payload_strip (m_usize (with_tags c t) s) = payload_strip (m_usize c s).
+Proof. exact (@m_usize_with_tags). Qed.
+Check C13_m_usize_with_tags :
+  forall c t s, payload_strip (m_usize (with_tags c t) s) = payload_strip (m_usize c s).
+
+(* the accessors depend on [value c] only *)
+Theorem C13_m_xint_value : forall a b, value a = value b -> m_xint a = m_xint b.
+Proof. exact m_xint_value. Qed.
+Check C13_m_xint_value : forall a b, value a = value b -> m_xint a = m_xint b.
+Theorem C13_to_xint_value : forall a b, value a = value b -> to_xint a = to_xint b.
+Proof. exact to_xint_value. Qed.
+Check C13_to_xint_value : forall a b, value a = value b -> to_xint a = to_xint b.
+Theorem C13_m_bool_value : forall a b, value a = value b -> strip a = strip b ->
+  forall s, payload_strip (m_bool a s) = payload_strip (m_bool b s).
+Proof. exact m_bool_value. Qed.
+Check C13_m_bool_value : forall a b, value a = value b -> strip a = strip b ->
+  forall s, payload_strip (m_bool a s) = payload_strip (m_bool b s).
+
+(* tagwf is needed: a doubly wrapped value is seen differently from its stripped form *)
+Example C13_nested_tags_differ :
+  let b := CTag [] (CTag [] (CInt 1)) in
+  cell_cmp (CInt 1) b = Lt /\ cell_cmp b (CInt 1) = Eq /\ cell_eqb (CInt 1) b = false /\ cell_eqb b (CInt 1) = true.
+Proof. exact nested_tags_break_order. Qed.
+
+(* ================================================================== *)
+(* the tag words: a map attached to the value                          *)
+(* ================================================================== *)
+Theorem C13_value_insert_tag :
+  forall c k v, value (insert_tag c k v) = value c.
+Proof. exact (@value_insert_tag). Qed.
+Check C13_value_insert_tag :
+  forall c k v, value (insert_tag c k v) = value c.
+
+Theorem C13_value_remove_tag :
+  forall c k, value (remove_tag c k) = value c.
+Proof. exact (@value_remove_tag). Qed.
+Check C13_value_remove_tag :
+  forall c k, value (remove_tag c k) = value c.
+
+Theorem C13_strip_insert_tag :
+  forall c k v, strip (insert_tag c k v) = strip c.
+Proof. exact (@strip_insert_tag). Qed.
+Check C13_strip_insert_tag :
+  forall c k v, strip (insert_tag c k v) = strip c.
+
+Theorem C13_strip_remove_tag :
+  forall c k, strip (remove_tag c k) = strip c.
+Proof. exact (@strip_remove_tag). Qed.
+Check C13_strip_remove_tag :
+  forall c k, strip (remove_tag c k) = strip c.
+
+Theorem C13_eqb_insert_tag :
+  forall c k v b, tagwf c -> tagwf b -> cell_eqb (insert_tag c k v) b = cell_eqb c b.
+Proof. exact (@eqb_insert_tag). Qed.
+Check C13_eqb_insert_tag :
+  forall c k v b, tagwf c -> tagwf b -> cell_eqb (insert_tag c k v) b = cell_eqb c b.
+
+Theorem C13_eqb_remove_tag :
+  forall c k b, tagwf c -> tagwf b -> cell_eqb (remove_tag c k) b = cell_eqb c b.
+Proof. exact (@eqb_remove_tag). Qed.
+Check C13_eqb_remove_tag :
+  forall c k b, tagwf c -> tagwf b -> cell_eqb (remove_tag c k) b = cell_eqb c b.
+
+(* get-tag / insert-tag / remove-tag obey the map laws of C12 on the tag map *)
+Theorem C13_get_tag_with_tags :
+  forall c t k, get_tag (with_tags c t) k = assoc_find t k.
+Proof. exact (@get_tag_with_tags). Qed.
+Check C13_get_tag_with_tags :
+  forall c t k, get_tag (with_tags c t) k = assoc_find t k.
+
+Theorem C13_get_insert_tag :
+  forall c k v k', cell_ok c -> cell_ok k -> NoNaN k -> cell_ok k' -> NoNaN k' ->
+    get_tag (insert_tag c k v) k' = if cell_eqb k k' then Some v else get_tag c k'.
+Proof. exact (@get_insert_tag). Qed.
+Check C13_get_insert_tag :
+  forall c k v k', cell_ok c -> cell_ok k -> NoNaN k -> cell_ok k' -> NoNaN k' ->
+    get_tag (insert_tag c k v) k' = if cell_eqb k k' then Some v else get_tag c k'.
+
+Theorem C13_get_insert_tag_cmp :
+  forall c k v k', keys_tagwf (tags_or_empty c) -> tagwf k -> tagwf k' ->
+    get_tag (insert_tag c k v) k' = if cmp_is_eq (cell_cmp k k') then Some v else get_tag c k'.
+Proof. exact (@get_insert_tag_cmp). Qed.
+Check C13_get_insert_tag_cmp :
+  forall c k v k', keys_tagwf (tags_or_empty c) -> tagwf k -> tagwf k' ->
+    get_tag (insert_tag c k v) k' = if cmp_is_eq (cell_cmp k k') then Some v else get_tag c k'.
+
+Theorem C13_get_remove_tag :
+  forall c k k', cell_ok c -> cell_ok k -> NoNaN k -> cell_ok k' -> NoNaN k' ->
+    get_tag (remove_tag c k) k' = if cell_eqb k k' then None else get_tag c k'.
+Proof. exact (@get_remove_tag). Qed.
+Check C13_get_remove_tag :
+  forall c k k', cell_ok c -> cell_ok k -> NoNaN k -> cell_ok k' -> NoNaN k' ->
+    get_tag (remove_tag c k) k' = if cell_eqb k k' then None else get_tag c k'.
+
+Theorem C13_insert_tag_size :
+  forall c k v, cell_ok c -> cell_ok k ->
+    length (tags_or_empty (insert_tag c k v)) =
+    match get_tag c k with Some _ => length (tags_or_empty c) | None => S (length (tags_or_empty c)) end.
+Proof. exact (@insert_tag_size). Qed.
+Check C13_insert_tag_size :
+  forall c k v, cell_ok c -> cell_ok k ->
+    length (tags_or_empty (insert_tag c k v)) =
+    match get_tag c k with Some _ => length (tags_or_empty c) | None => S (length (tags_or_empty c)) end.
+
+(* the tag words keep values well formed *)
+Theorem C13_with_tags_ok :
+  forall c t, cell_ok c -> map_ok t -> cell_ok (with_tags c t).
+Proof. exact (@with_tags_ok). Qed.
+Check C13_with_tags_ok :
+  forall c t, cell_ok c -> map_ok t -> cell_ok (with_tags c t).
+
+Theorem C13_insert_tag_ok :
+  forall c k v, cell_ok c -> cell_ok k -> NoNaN k -> cell_ok v -> cell_ok (insert_tag c k v).
+Proof. exact (@insert_tag_ok). Qed.
+Check C13_insert_tag_ok :
+  forall c k v, cell_ok c -> cell_ok k -> NoNaN k -> cell_ok v -> cell_ok (insert_tag c k v).
+
+Theorem C13_remove_tag_ok :
+  forall c k, cell_ok c -> cell_ok k -> cell_ok (remove_tag c k).
+Proof. exact (@remove_tag_ok). Qed.
+Check C13_remove_tag_ok :
+  forall c k, cell_ok c -> cell_ok k -> cell_ok (remove_tag c k).
+
+(* ================================================================== *)
+(* strip_commutes                                                      *)
+(* ================================================================== *)
+(* MAIN THEOREM.  For every native word (the table and the sized uN/iN/fN families) that does not read
+   tags: stripping first or stripping afterwards gives the same result - same kind of result,
+   same error kind, equal payload and final state after stripping.  This covers the tag WRITING
+   words with-tags insert-tag remove-tag %tagmap-end as well. *)
+Theorem C13_strip_commutes :
+  forall fo w f s,
+    native_fn fo w = Some f -> tag_reader w = false -> tagwf_state s ->
+    res_strip (f s) = res_strip (f (strip_state s)).
+Proof. exact (@strip_commutes). Qed.
+Check C13_strip_commutes :
+  forall fo w f s,
+    native_fn fo w = Some f -> tag_reader w = false -> tagwf_state s ->
+    res_strip (f s) = res_strip (f (strip_state s)).
+
+(* ... for any two states that agree after stripping (arguments tagged differently at any depth) *)
+Theorem C13_strip_commutes_rel :
+  forall fo w f s1 s2,
+    native_fn fo w = Some f -> tag_reader w = false ->
+    tagwf_state s1 -> tagwf_state s2 -> strip_state s1 = strip_state s2 ->
+    res_strip (f s1) = res_strip (f s2).
+Proof. exact (@strip_commutes_rel). Qed.
+Check C13_strip_commutes_rel :
+  forall fo w f s1 s2,
+    native_fn fo w = Some f -> tag_reader w = false ->
+    tagwf_state s1 -> tagwf_state s2 -> strip_state s1 = strip_state s2 ->
+    res_strip (f s1) = res_strip (f s2).
+
+(* the simulation behind it *)
+Theorem C13_native_sim :
+  forall fo w f, native_fn fo w = Some f -> tag_reader w = false -> sim eq f f.
+Proof. exact (@native_sim). Qed.
+Check C13_native_sim :
+  forall fo w f, native_fn fo w = Some f -> tag_reader w = false -> sim eq f f.
+
+(* the hypothesis is an invariant of these words *)
+Theorem C13_native_preserves_tagwf :
+  forall fo w f s,
+    native_fn fo w = Some f -> tag_reader w = false -> tagwf_state s ->
+    match f s with
+    | ROk _ s' => tagwf_state s'
+    | RErr _ _ s' => tagwf_state s'
+    | _ => True
+    end.
+Proof. exact (@native_preserves_tagwf). Qed.
+Check C13_native_preserves_tagwf :
+  forall fo w f s,
+    native_fn fo w = Some f -> tag_reader w = false -> tagwf_state s ->
+    match f s with
+    | ROk _ s' => tagwf_state s'
+    | RErr _ _ s' => tagwf_state s'
+    | _ => True
+    end.
+
+(* the theorem is a Forall over the word table: a new word adds an obligation *)
+Theorem C13_sim_word_table :
+  forall fo,
+    Forall (fun nw => tag_reader (fst nw) = true \/ simw (snd nw)) (word_table fo).
+Proof. exact (@sim_word_table). Qed.
+Check C13_sim_word_table :
+  forall fo,
+    Forall (fun nw => tag_reader (fst nw) = true \/ simw (snd nw)) (word_table fo).
+
+(* the statement with the exclusion list of the design note (which does not name close-bitstr) *)
+Definition C13_full : Prop :=
+  forall fo w f s, native_fn fo w = Some f -> ~ In w design_excluded -> tagwf_state s ->
+                   res_strip (f s) = res_strip (f (strip_state s)).
+(* ... is FALSE in the model: close-bitstr restores the read offset from the "offset" tag that
+   open-bitstr attached to the stashed input; with the heap stripped the offset is lost *)
+Theorem C13_full_refuted : ~ C13_full.
+Proof. exact strip_commutes_full_refuted. Qed.
+Check C13_full_refuted : ~ C13_full.
+Theorem C13_close_bitstr_refuted :
+  exists s, tagwf_state s /\ res_strip (w_close_bitstr s) <> res_strip (w_close_bitstr (strip_state s)).
+Proof. exact (@close_bitstr_not_commuting). Qed.
+Check C13_close_bitstr_refuted :
+  exists s, tagwf_state s /\ res_strip (w_close_bitstr s) <> res_strip (w_close_bitstr (strip_state s)).
+
+Theorem C13_close_bitstr_witness :
+  tagwf_state ex_close_state /\
+    option_map (fun s => nth_error (heap s) R_OFFSET) (res_state (res_strip (w_close_bitstr ex_close_state)))
+      = Some (Some (CInt 8)) /\
+    option_map (fun s => nth_error (heap s) R_OFFSET) (res_state (res_strip (w_close_bitstr (strip_state ex_close_state))))
+      = Some (Some (CInt 0)).
+Proof. exact (@close_bitstr_reads_tags). Qed.
+Check C13_close_bitstr_witness :
+  tagwf_state ex_close_state /\
+    option_map (fun s => nth_error (heap s) R_OFFSET) (res_state (res_strip (w_close_bitstr ex_close_state)))
+      = Some (Some (CInt 8)) /\
+    option_map (fun s => nth_error (heap s) R_OFFSET) (res_state (res_strip (w_close_bitstr (strip_state ex_close_state))))
+      = Some (Some (CInt 0)).
+
+(* ... and that tag is the only reason: strip everything but the stash slot and close-bitstr commutes too
+   (tagwfT: no doubly wrapped tag anywhere, tag maps included) *)
+Theorem C13_close_bitstr_keep_stash :
+  forall s,
+    tagwf_state s -> (forall st, nth_error (heap s) R_STASH = Some st -> tagwfT st) ->
+    res_strip (w_close_bitstr s) = res_strip (w_close_bitstr (strip_state_keep_stash s)).
+Proof. exact (@close_bitstr_commutes_keep_stash). Qed.
+Check C13_close_bitstr_keep_stash :
+  forall s,
+    tagwf_state s -> (forall st, nth_error (heap s) R_STASH = Some st -> tagwfT st) ->
+    res_strip (w_close_bitstr s) = res_strip (w_close_bitstr (strip_state_keep_stash s)).
+
+Theorem C13_close_bitstr_same_stash :
+  forall s1 s2,
+    srel s1 s2 ->
+    nth_error (heap s1) R_STASH = nth_error (heap s2) R_STASH ->
+    (forall st, nth_error (heap s1) R_STASH = Some st -> tagwfT st) ->
+    res_strip (w_close_bitstr s1) = res_strip (w_close_bitstr s2).
+Proof. exact (@close_bitstr_same_stash). Qed.
+Check C13_close_bitstr_same_stash :
+  forall s1 s2,
+    srel s1 s2 ->
+    nth_error (heap s1) R_STASH = nth_error (heap s2) R_STASH ->
+    (forall st, nth_error (heap s1) R_STASH = Some st -> tagwfT st) ->
+    res_strip (w_close_bitstr s1) = res_strip (w_close_bitstr s2).
+
+(* what is missing from C13_full is exactly close-bitstr *)
+Theorem C13_full_partial :
+  forall fo w f s,
+    native_fn fo w = Some f -> ~ In w design_excluded -> w <> "close-bitstr"%string -> tagwf_state s ->
+    res_strip (f s) = res_strip (f (strip_state s)).
+Proof. exact (@strip_commutes_full_partial). Qed.
+Check C13_full_partial :
+  forall fo w f s,
+    native_fn fo w = Some f -> ~ In w design_excluded -> w <> "close-bitstr"%string -> tagwf_state s ->
+    res_strip (f s) = res_strip (f (strip_state s)).
+
+(* the other excluded words do depend on tags *)
+Theorem C13_tags_reads_tags :
+  let s := ex_state [ex_tagged] [] in
+    top_of (res_strip (w_tags s)) = Some (CMap [(CStr "k", CInt 7)]) /\
+    top_of (res_strip (w_tags (strip_state s))) = Some CNil.
+Proof. exact (@tags_reads_tags). Qed.
+Check C13_tags_reads_tags :
+  let s := ex_state [ex_tagged] [] in
+    top_of (res_strip (w_tags s)) = Some (CMap [(CStr "k", CInt 7)]) /\
+    top_of (res_strip (w_tags (strip_state s))) = Some CNil.
+
+Theorem C13_get_tag_reads_tags :
+  let s := ex_state [CStr "k"; ex_tagged] [] in
+    top_of (res_strip (w_get_tag s)) = Some (CInt 7) /\
+    top_of (res_strip (w_get_tag (strip_state s))) = Some CNil.
+Proof. exact (@get_tag_reads_tags). Qed.
+Check C13_get_tag_reads_tags :
+  let s := ex_state [CStr "k"; ex_tagged] [] in
+    top_of (res_strip (w_get_tag s)) = Some (CInt 7) /\
+    top_of (res_strip (w_get_tag (strip_state s))) = Some CNil.
+
+Theorem C13_print_reads_tags :
+  let s := ex_state [CTag [(fmt_tag_name, CInt (16 + 256))] (CInt 255)] [] in
+    option_map out (res_state (w_print s)) = Some "0xff"%string /\
+    option_map out (res_state (w_print (strip_state s))) = Some "255"%string.
+Proof. exact (@print_reads_tags). Qed.
+Check C13_print_reads_tags :
+  let s := ex_state [CTag [(fmt_tag_name, CInt (16 + 256))] (CInt 255)] [] in
+    option_map out (res_state (w_print s)) = Some "0xff"%string /\
+    option_map out (res_state (w_print (strip_state s))) = Some "255"%string.
+
+(* ================================================================== *)
+(* freshly computed results carry no tags                              *)
+(* ================================================================== *)
+(* for every table word that builds no tag wrapper and every set T: if all tag wrappers the machine
+   holds are in T, so are all tag wrappers of the result state and of the error payload *)
+Theorem C13_fresh_untagged :
+  forall fo w f T s,
+    table_find (word_table fo) w = Some f -> tag_maker w = false -> tg_state T s ->
+    match f s with
+    | ROk _ s' => tg_state T s'
+    | RErr _ p s' => tgo T p /\ tg_state T s'
+    | _ => True
+    end.
+Proof. exact (@fresh_untagged). Qed.
+Check C13_fresh_untagged :
+  forall fo w f T s,
+    table_find (word_table fo) w = Some f -> tag_maker w = false -> tg_state T s ->
+    match f s with
+    | ROk _ s' => tg_state T s'
+    | RErr _ p s' => tgo T p /\ tg_state T s'
+    | _ => True
+    end.
+
+(* hence every tag wrapper of an output cell is (a component of) a cell the machine held before *)
+Theorem C13_fresh_components :
+  forall fo w f s,
+    table_find (word_table fo) w = Some f -> tag_maker w = false ->
+    match f s with
+    | ROk _ s' => tg_state (came_from s) s'
+    | RErr _ p s' => tgo (came_from s) p /\ tg_state (came_from s) s'
+    | _ => True
+    end.
+Proof. exact (@fresh_components). Qed.
+Check C13_fresh_components :
+  forall fo w f s,
+    table_find (word_table fo) w = Some f -> tag_maker w = false ->
+    match f s with
+    | ROk _ s' => tg_state (came_from s) s'
+    | RErr _ p s' => tgo (came_from s) p /\ tg_state (came_from s) s'
+    | _ => True
+    end.
+
+(* and a machine without tags computes results without tags *)
+Theorem C13_fresh_no_tags :
+  forall fo w f s,
+    table_find (word_table fo) w = Some f -> tag_maker w = false -> no_tags_state s ->
+    match f s with
+    | ROk _ s' => no_tags_state s'
+    | RErr _ p s' => tgo (fun _ => False) p /\ no_tags_state s'
+    | _ => True
+    end.
+Proof. exact (@fresh_no_tags). Qed.
+Check C13_fresh_no_tags :
+  forall fo w f s,
+    table_find (word_table fo) w = Some f -> tag_maker w = false -> no_tags_state s ->
+    match f s with
+    | ROk _ s' => no_tags_state s'
+    | RErr _ p s' => tgo (fun _ => False) p /\ no_tags_state s'
+    | _ => True
+    end.
+
+Theorem C13_no_tags_strip :
+  forall c, no_tags c -> strip c = c.
+Proof. exact (@no_tags_strip). Qed.
+Check C13_no_tags_strip :
+  forall c, no_tags c -> strip c = c.
+
+Theorem C13_fresh_pack_words :
+  forall fo T n o, invw T (pack_int n o) /\ invw T (pack_float fo n o).
+Proof. exact (@fresh_pack_words). Qed.
+Check C13_fresh_pack_words :
+  forall fo T n o, invw T (pack_int n o) /\ invw T (pack_float fo n o).
+
+Theorem C13_inv_word_table :
+  forall fo,
+    Forall (fun nw => tag_maker (fst nw) = true \/ forall T, invw T (snd nw)) (word_table fo).
+Proof. exact (@inv_word_table). Qed.
+Check C13_inv_word_table :
+  forall fo,
+    Forall (fun nw => tag_maker (fst nw) = true \/ forall T, invw T (snd nw)) (word_table fo).
+
+Theorem C13_with_tags_makes_a_tag :
+  let s := mkstate [] [] [] [] [] [] [CMap []; CInt 1] [] [] [] [] (mkctx 0 0 0 0 0 0 0 0 MEval) [] 0%Z
+                     None None None None EmptyString None false in
+    match w_with_tags s with ROk _ s' => ds s' = [CTag [] (CInt 1)] | _ => False end.
+Proof. exact (@with_tags_makes_a_tag). Qed.
+Check C13_with_tags_makes_a_tag :
+  let s := mkstate [] [] [] [] [] [] [CMap []; CInt 1] [] [] [] [] (mkctx 0 0 0 0 0 0 0 0 MEval) [] 0%Z
+                     None None None None EmptyString None false in
+    match w_with_tags s with ROk _ s' => ds s' = [CTag [] (CInt 1)] | _ => False end.
+
+(* ================================================================== *)
+(* non-vacuity                                                         *)
+(* ================================================================== *)
+(* nth on arguments tagged at depth 0, 1 and 2 (one of them with the formatting tag) *)
+Example C13_strip_commutes_nonvacuous : forall fo,
+  tagwf_state ex_args_state /\ native_fn fo "nth"%string = Some w_nth /\ tag_reader "nth"%string = false /\
+  top_of (w_nth ex_args_state) = Some (CVec [CTag ex_t (CStr "x")]) /\
+  top_of (w_nth (strip_state ex_args_state)) = Some (CVec [CStr "x"]) /\
+  res_strip (w_nth ex_args_state) = res_strip (w_nth (strip_state ex_args_state)).
+Proof. exact strip_commutes_nonvacuous. Qed.
+
+Example C13_tag_words_nonvacuous :
+  let c := insert_tag (insert_tag (CInt 5) (CStr "a") (CInt 1)) (CReal 0) (CStr "z") in
+  cell_ok c /\ value c = CInt 5 /\ strip c = CInt 5 /\
+  get_tag c (CStr "a") = Some (CInt 1) /\ get_tag c (CReal (2 ^ 63)) = Some (CStr "z") /\
+  get_tag (remove_tag c (CStr "a")) (CStr "a") = None /\ cell_eqb c (CInt 5) = true.
+Proof.
+  split; [| vm_compute; repeat split; reflexivity].
+  apply insert_tag_ok; [apply insert_tag_ok |..]; ok_tac.
+Qed.
